@@ -200,6 +200,9 @@ def _map(f, conc):
 
 
 def _csqrt(v):
+    c = core.ctx()
+    if c is not None and c.extra.get('concrete_sqrt'):
+        return real_math.sqrt(v)
     if isinstance(v, builtins.int) or (isinstance(v, builtins.float) and v == builtins.int(v) and v >= 0):
         r = real_math.isqrt(builtins.int(v))
         if r * r == v:
